@@ -765,7 +765,7 @@ REGISTRY = {
     'C12': dict(modules=['LibconfigModel.Properties.C12'], run=run_C12, assumptions=COMMON_ASSUMPTIONS + ['stdio reports a failed write(2) through fflush()/ferror(); a successful fclose() means the kernel accepted all data']),
     'C09': dict(modules=['LibconfigModel.Properties.C09'], run=run_C09, assumptions=COMMON_ASSUMPTIONS),
     'C08': dict(modules=['LibconfigModel.Properties.C08', 'LibconfigModel.Properties.C08Float'], run=run_C08, assumptions=COMMON_ASSUMPTIONS),
-    'C02': dict(modules=['LibconfigModel.Properties.C02', 'LibconfigModel.Properties.C02Complete', 'LibconfigModel.Properties.Bridge'], run=run_C02, assumptions=COMMON_ASSUMPTIONS),
+    'C02': dict(modules=['LibconfigModel.Properties.C02', 'LibconfigModel.Properties.C02Complete', 'LibconfigModel.Properties.C02Denote', 'LibconfigModel.Properties.Bridge'], run=run_C02, assumptions=COMMON_ASSUMPTIONS),
     'C04': dict(modules=['LibconfigModel.Properties.C04', 'LibconfigModel.Properties.C04Read', 'LibconfigModel.Properties.Bridge'], run=run_C04, assumptions=COMMON_ASSUMPTIONS),
     'C05': dict(modules=['LibconfigModel.Properties.C05', 'LibconfigModel.Properties.Bridge'], run=run_C05, assumptions=COMMON_ASSUMPTIONS),
     'C06': dict(modules=['LibconfigModel.Properties.C06'], run=run_C06, assumptions=COMMON_ASSUMPTIONS),
@@ -775,7 +775,7 @@ REGISTRY = {
 }
 
 import props_c01
-REGISTRY['C01'] = dict(modules=['LibconfigModel.Properties.C01', 'LibconfigModel.Properties.C01Lex', 'LibconfigModel.Properties.C01Parse', 'LibconfigModel.Properties.C01RoundTrip', 'LibconfigModel.Properties.Bridge'], run=props_c01.run_C01, assumptions=COMMON_ASSUMPTIONS)
+REGISTRY['C01'] = dict(modules=['LibconfigModel.Properties.C01', 'LibconfigModel.Properties.C01Lex', 'LibconfigModel.Properties.C01Parse', 'LibconfigModel.Properties.C01RoundTrip', 'LibconfigModel.Properties.C01Idem', 'LibconfigModel.Properties.Bridge'], run=props_c01.run_C01, assumptions=COMMON_ASSUMPTIONS)
 
 import props_c1011
 def run_C10_all(ctx):
